@@ -64,7 +64,7 @@ def poly_case(rng, tier):
     return {'op': 'poly', 'N': N, 'terms': terms, 'x': [rng.randint(-3, 3) for _ in range(N)],
             'v': [rng.choice([rng.randint(-2, 2), rng.randint(-8, 8) / 4.0]) for _ in range(N)],
             'xkind': rng.choice(['float', 'int-array', 'int-list']),
-            'd': rng.randint(1, 3 if tier == 'quick' else 4)}
+            'd': rng.randint(1, 4 if tier == 'quick' else 5)}     # d >= 4: multi-indices with two entries >= 2
 
 
 def peval(terms, xs):
